@@ -126,6 +126,29 @@ def _resolve_names(m, node, local_assign, mi, depth=0, fd=None):
     if isinstance(node, ast.JoinedStr) or (
             isinstance(node, ast.Attribute) and "dtype" in ast.unparse(node)):
         return [("<dtype name>", "dynamic: name of a numpy scalar type")]
+    # the result of a private helper of the module: whatever it can return
+    if isinstance(node, ast.Call) and depth < 3 and (
+            (isinstance(node.func, ast.Name) and node.func.id.startswith("_"))
+            or (isinstance(node.func, ast.Attribute) and node.func.attr.startswith("_")
+                and not node.func.attr.startswith("__")
+                and isinstance(node.func.value, ast.Name)
+                and node.func.value.id in ("self", "cls"))):
+        hn = node.func.id if isinstance(node.func, ast.Name) else node.func.attr
+        helpers = [g for g in ast.walk(mi.tree) if isinstance(g, ast.FunctionDef)
+                   and g.name == hn]
+        if len(helpers) == 1:
+            h = helpers[0]
+            hl = {}
+            for st in ast.walk(h):
+                if isinstance(st, ast.Assign) and isinstance(st.targets[0], ast.Name):
+                    hl.setdefault(st.targets[0].id, []).append(st.value)
+            rets = [r.value for r in ast.walk(h) if isinstance(r, ast.Return)
+                    and r.value is not None]
+            if rets:
+                out = []
+                for r in rets:
+                    out += _resolve_names(m, r, hl, mi, depth + 1, fd=h)
+                return out
     return [("<unresolved:" + ast.unparse(node)[:40] + ">", "unresolved")]
 
 
